@@ -278,6 +278,12 @@ def run_entry(entry, n, seed, acc, tier):
             if sites and cc:
                 sg, ei = sites[ch.integer(0, len(sites) - 1)]
                 sg.vals[ei] = [ch.choice(cc)]
+        if entry['icvn'] == '00401' and dl[0] != '~' and ch.chance(.3):
+            # before 00501, ISA11 is an ordinary element: under other delimiters it may hold ~ * or :
+            c_ = [x for x in '*~:' if x not in dl]
+            for sg in doc.segs:
+                if sg.id == 'ISA' and c_:
+                    sg.vals[10] = [ch.choice(c_)]
         notused = []
         if ch.chance(.4):
             cands = faults.candidates(doc, 'not-used-filled')
